@@ -415,23 +415,22 @@ func newHTTPRig(down, up string) (*httpRig, error) {
 		}
 		g.h1, g.br = c, bufio.NewReaderSize(c, 64*1024)
 	} else {
-		tr := mesh.NewH2Transport()
-		g.tr, g.trC = tr, tr.CloseIdleConnections
+		tr, abort := mesh.NewH2TransportTracked()
+		g.tr, g.trC = tr, abort
 	}
 	return g, nil
 }
 
 func (g *httpRig) close() {
-	if g.h1 != nil {
-		_ = g.h1.Close()
-	}
+	// reset instead of close: no TIME_WAIT sockets (clients first, then the upstream, then the listener)
+	mesh.Abort(g.h1)
 	if g.trC != nil {
 		g.trC()
 	}
+	g.up1.Close()
 	if g.cs != nil {
 		g.cs.Close()
 	}
-	g.up1.Close()
 }
 
 type clientResp struct {
@@ -972,7 +971,18 @@ func xCase(rt *rapid.T, p string) {
 		}
 		return mesh.Action{Kind: "drop"}
 	})
-	defer up.Close()
+	var cs *mesh.Case
+	var cl *mesh.XClient
+	defer func() {
+		if cl != nil {
+			mesh.Abort(cl.C)
+			cl.Close()
+		}
+		mesh.KillAndClose(up)
+		if cs != nil {
+			cs.Close()
+		}
+	}()
 	cs, err := mesh.NewCaseBound(mesh.Opts{Down: p, Up: p, Hosts: []string{up.Addr}, Routers: func(cl string) []v2.Router {
 		// catch-all RPC route: generated bolt frames need not carry a "service" header
 		return []v2.Router{{RouterConfig: v2.RouterConfig{Route: v2.RouteAction{RouterActionConfig: v2.RouterActionConfig{ClusterName: cl}}}}}
@@ -980,12 +990,10 @@ func xCase(rt *rapid.T, p string) {
 	if err != nil {
 		rt.Skip("rig: " + err.Error())
 	}
-	defer cs.Close()
-	cl, err := mesh.DialX(p, cs.Addr)
+	cl, err = mesh.DialX(p, cs.Addr)
 	if err != nil {
 		rt.Skip("dial: " + err.Error())
 	}
-	defer cl.Close()
 
 	for i, x := range xs {
 		classes := []string{"proto:" + p, "kind:" + x.req.Kind}
